@@ -50,3 +50,7 @@ impl NodeMeta {
         meta.serialized_size()
     }
 }
+
+#[cfg(any(kani, pearl_verif))]
+#[path = "/verif/kani/layout_tree_meta.rs"]
+mod verif_kani;
